@@ -140,3 +140,25 @@ Theorem persist_reload_refuted :
     ~ In (n, vval x) (reload now (vdisk (vrun vinit ops))).
 Proof. exact persist_reload_refuted_l. Qed.
 Print Assumptions persist_reload_refuted.
+
+(* 5. FileManager.save called directly (tie: suite "fsave", real ruamel dumper, faults injected in
+      write() and by unrepresentable values).  A save that raises leaves the data file and the flag
+      untouched and the temp file incomplete; whatever failed before, a later good save is on disk. *)
+Theorem direct_good_save_lands :
+  forall ff b v d, let s := direct_save (ff, true) b v d 0 in
+    file s = Some (v, TFull) /\ temp s = None /\ busy s = false.
+Proof. exact direct_good_save_lands_l. Qed.
+Print Assumptions direct_good_save_lands.
+
+Theorem direct_failed_save_harmless :
+  forall ff b v d t, t <> 0 ->
+    let s := direct_save (ff, true) b v d t in
+    file s = fst d /\ busy s = false /\ (temp s = Some (v, TEmpty) \/ temp s = Some (v, THalf)).
+Proof. exact direct_failed_save_harmless_l. Qed.
+Print Assumptions direct_failed_save_harmless.
+
+Theorem fsave_later_good_save_lands :
+  forall ff ops i v, let s := frun (ff, true) finit (ops ++ [FGood i v]) in
+    fbusy s = false /\ fst (if i =? 0 then fd0 s else fd1 s) = Some (v, TFull).
+Proof. exact fsave_later_good_save_lands_l. Qed.
+Print Assumptions fsave_later_good_save_lands.
